@@ -19,15 +19,16 @@ TRUSTED = ("Trusted base: TLC 1.8 and the CommunityModules Json/IOUtils operator
            "DESIGN.md section 4 under 'P'; exhaustiveness holds for the stated small constants only, beyond them the "
            "coverage is seeded-random and reported as such in the evidence file.")
 
-check("C13", "TLA+ model (Section/SectionAlgo) checked by TLC to its fixpoint; every model transition replayed on real "
+check("C13", "TLA+ model (Section/SectionAlgo, SectionReuse for items put back after deletion) checked by TLC to its fixpoint; every SectionAlgo transition replayed on real "
       "SectionItems; recorded and random histories validated by TLC against Trace_Section",
       "Model checking of an explicit TLA+ specification bound to the code in both directions: the algorithm layer "
       "(suffix assignment, first-match lookup) is model-checked against the intent layer for all reachable sections of "
       "<= MaxLen items, every transition TLC explored is replayed on a real SectionItems, and every recorded behaviour of "
       "the real object (model-driven and seeded-random, on fresh sections and on sections produced by lasio.read with each "
-      "mnemonic_case) must be a behaviour the intent layer allows, clause by clause.", TRUSTED, "DESIGN.md 4 C13")
+      "mnemonic_case, including histories that put a deleted item back with its stale session name) must be a behaviour the "
+      "intent layer allows, clause by clause.", TRUSTED, "DESIGN.md 4 C13")
 check("C15", "same state graph and traces as C13, judged on the lookup/probe clauses (LookupsAgree, IntIsPosition, "
-      "SliceIsList, Ids, Exc, Values, Ret) of Trace_Section",
+      "SliceIsList, Ids, Exc, Values, Ret; LookupsAgree.copy on deepcopy / pickle copies) of Trace_Section",
       "Model checking + trace validation: after every replayed model transition and inside random histories the real "
       "section is probed with present/absent/other-case/int/negative-int/slice keys through `in`, [], attribute access and "
       "get(); TLC evaluates the intent operators (Lookup, PyPos, PySlice) on the logged state and compares.", TRUSTED,
